@@ -291,7 +291,7 @@ ARENA.update({
         x=['panic', 'block-misaligned', 'live-blocks-overlap', 'entry-points-differ'],
         mism=['result-block', 'result-kind', 'prepared-range', 'stats', 'block-contents'],
         colls_search_x=['capacity:', 'contents differ', 'returned values differ', 'std::vec::Vec', 'accounted', 'lost'],
-        note='hint independence and dyn=typed commit proved; try_/panicking twins and the forwarding layers (forward_methods!, impls for references, trait objects, WithoutDealloc, WithoutShrink) decided statically on tables regenerated from the source on every run (tools/c17.py -> gen/Twins.v, rules and meaning in TwinSpec.v: 230 twin pairs, 173 forwarding functions); PARTIAL: the normalisation of the twin bodies is part of the trusted translator; the entry points are additionally run against one model function'),
+        note='hint independence and dyn=typed commit proved; try_/panicking twins and the forwarding layers (forward_methods!, impls for references, trait objects, WithoutDealloc, WithoutShrink, the allocator-api2 compatibility macro of features/allocator_util.rs) decided statically on tables regenerated from the source on every run (tools/c17.py -> gen/Twins.v, rules and meaning in TwinSpec.v: 230 twin pairs, 178 forwarding functions); PARTIAL: the normalisation of the twin bodies is part of the trusted translator; the entry points are additionally run against one model function, the routes of one request (method, try_ twin, BumpScope) are compared from equal states, and twin arenas are driven through the crate-own and the allocator-api2 Allocator trait (on Bump, BumpScope, WithoutDealloc, WithoutShrink) with the same random allocate / grow / grow_zeroed / shrink / deallocate sequence, plus allocator_api2 Vec / Box as real clients'),
     'C18': dict(
         x=['position-not-multiple-of-min-align', 'scoped-aligned-exit-not-exactly-entry-position', 'block-contents-changed',
            'block-misaligned', 'live-blocks-overlap', 'panic'],
@@ -564,7 +564,7 @@ COLLS = {
                 note='list-function refinement proved for the modelled operations; capacity clauses proved for BumpVec / FixedBumpVec / MutBumpVec / MutBumpVecRev over the capacity model VecCap.v (capacity >= length in every reachable state, reserve / reserve_exact / with_capacity keep their promise, no allocator call and no move while the promise suffices, amortised doubling, a fixed vector never reallocates and fails exactly when full) and replayed from capacity histories; PARTIAL: zero-sized element types and unmodelled operations are checked against std::vec::Vec in lock-step only'),
     'C16': dict(x=['split_off capacities', 'split_off part', 'changed the remaining part', 'changed the split-off part', 'parts:'],
                 ops=['split_off', 'split_at', 'split_first', 'split_last', 'split_off_first', 'split_off_last', 'partition', 'merge'],
-                note='split_off (rotate in place), split_at, split_first/last (+ split_off_ twins), merge and partition (partition_in_place + split_at) proved against their specifications (Parts.v: windows of one buffer) and replayed from the trace; PARTIAL: into_flattened, split_at_spare, capacities of split vectors and the independence of the parts under follow-up operations are checked on the implementation only'),
+                note='split_off (rotate in place), split_at, split_first/last (+ split_off_ twins), merge and partition (partition_in_place + split_at) proved against their specifications (Parts.v: windows of one buffer) and replayed from the trace; the buffer windows of split_off on a vector (SplitCap.v: the offset / length / capacity; they hold exactly the parts, tile the old buffer without overlap, capacities add up, the spare capacity stays with the window at the end) proved and compared with the implementation on every split_off case of BumpVec / FixedBumpVec (`win=` field of the trace); PARTIAL: into_flattened (flatten probe: std in lock-step, capacity = old capacity * N, zero-sized elements, birth / drop ledger), split_at_spare and the independence of the parts under follow-up operations are checked on the implementation only'),
 }
 
 
